@@ -248,11 +248,22 @@ def analyse(case, out):
             pcs = [pc for pc in range(len(th[k])) if done.get((k, pc), 1 << 60) > j]
             if not pcs: continue
             pc = pcs[0]
-            if pc == 0 or done.get((k, pc - 1), 1 << 60) > j: continue     # not certainly started
+            if pc == 0 or done.get((k, pc - 1), 1 << 60) >= j: continue    # not certainly started before event j
             o = opof(k, pc)
             lo = lock_obj(o)
             if lo and lo[0] == obj and lo[1] and o[0] != 'q_try':
                 ws.append((k, pc, lo[1]))
+        return ws
+
+    def possible_writers(j, obj):
+        """threads whose op in flight at event j is a blocking WRITE lock on obj (started or not: the trace does not
+        show when the first op of a thread starts, nor a re-queued waiter)"""
+        ws = []
+        for k in range(len(th)):
+            pcs = [pc for pc in range(len(th[k])) if done.get((k, pc), 1 << 60) > j]
+            if not pcs: continue
+            o = opof(k, pcs[0]); lo = lock_obj(o)
+            if lo and lo[0] == obj and lo[1] == 'W' and o[0] != 'q_try': ws.append(k)
         return ws
 
     issued = {}
@@ -294,7 +305,7 @@ def analyse(case, out):
                     # scenario (a): a writer gives up while only readers hold; readers queued behind it stay queued
                     if m == 'W' and holders[obj] and all(x[1] == 'R' for x in holders[obj]):
                         ws = definite_waiters(j, obj)
-                        if ws and all(mm == 'R' for _, _, mm in ws):
+                        if ws and all(mm == 'R' for _, _, mm in ws) and possible_writers(j, obj) == [k]:
                             late = [kk for kk, pp, mm in ws if (kk, pp) not in done or res['tr'][done[(kk, pp)]][4] > now]
                             if late:
                                 fails.append(('convoy', 'writer T%d gave up at t=%d while only readers %s hold lock %d; readers T%s stay queued '
@@ -327,7 +338,10 @@ def analyse(case, out):
                     elif succ and name == 'rw_unlock':
                         first = succ[0][1]
                         fm = lock_obj(opof(first[0], first[1]))[1]
-                        if fm == 'R' and not any(mm == 'W' for _, _, mm in ws):
+                        # a writer that acquires at the same instant (a fresh locker barging in before the notified
+                        # readers run, scenario (b)) legitimately sends the readers back to the queue
+                        wbarge = any(lock_obj(opof(e[0], e[1]))[1] == 'W' for _, e in succ)
+                        if fm == 'R' and not wbarge and not possible_writers(j, obj):
                             for kk, pp, mm in ws:
                                 ev = res['tr'][done[(kk, pp)]] if (kk, pp) in done else None
                                 if ev is None or ev[4] != now:
